@@ -72,6 +72,22 @@ theorem result_has_latency (h : Reachable w m d s) (hh : Hit) (hm : hh ∈ s.hit
   | none => exact absurd hf (g hp)
   | some f => exact ⟨f, rfl⟩
 
+/-! #### source facts (binding): the timestamp and the sequence number are taken in one critical section -/
+
+/-- In `hit`, between `seqmu.Lock()` and `seqmu.Unlock()` lie exactly: the assignment of the
+result's Timestamp, the assignment of its Seq, and the increment of the attack's counter. -/
+theorem facts_critical_section : Vegeta.Extracted.hitCriticalSection =
+    [[97, 115, 115, 105, 103, 110, 32, 84, 105, 109, 101, 115, 116, 97, 109, 112],
+     [97, 115, 115, 105, 103, 110, 32, 83, 101, 113],
+     [105, 110, 99, 100, 101, 99, 32, 115, 101, 113]] := by decide
+
+/-- Nowhere else in `hit` is a Timestamp or a sequence number assigned; the timestamp derives
+from the attack's start instant (monotonic clock); the latency is measured in a deferred
+function from that same timestamp. -/
+theorem facts_no_assignment_outside :
+    Vegeta.Extracted.hitTimestampAssignsOutsideCS = 0 ∧ Vegeta.Extracted.hitSeqAssignsOutsideCS = 0 ∧
+    Vegeta.Extracted.hitTimestampFromBegan = true ∧ Vegeta.Extracted.hitLatencyInDeferFromTimestamp = true := by decide
+
 /-! non-vacuity: two workers, the second timestamp is read later but both orders agree -/
 example : (run (init 2 2 0) [.ready, .ready, .paceWait 0, .wake, .tick, .paceWait 0, .wake, .tick, .advance 3, .csEnter,
     .advance 2, .csLeave, .csEnter, .csLeave, .enter 1, .advance 1, .enter 0, .advance 4, .leave 0, .finish 0]).map
